@@ -665,6 +665,16 @@ class AsyncServer:
 
         notifications = self._pipeline_notfull_notifications  # {}
 
+        def deliver(fut, y):
+            # This runs in the event loop, some time after the gather thread has looked at
+            # `fut`; the caller may have abandoned (cancelled) the request in between.
+            if fut.cancelled():
+                return
+            if isinstance(y, BaseException):
+                fut.set_exception(y)
+            else:
+                fut.set_result(y)
+
         while True:
             z = q_out.get()
             if z is None:
@@ -683,10 +693,7 @@ class AsyncServer:
             if not fut.cancelled():
                 if isinstance(y, RemoteException):
                     y = y.exc
-                if isinstance(y, BaseException):
-                    loop.call_soon_threadsafe(fut.set_exception, y)
-                else:
-                    loop.call_soon_threadsafe(fut.set_result, y)
+                loop.call_soon_threadsafe(deliver, fut, y)
                 fut.data['t2'] = perf_counter()
 
             f = asyncio.run_coroutine_threadsafe(notify(), loop)
